@@ -1,0 +1,142 @@
+//go:build verif
+// +build verif
+
+package main
+
+// Probe of the exported wrappers for the /verif harness (compiled only with
+// -tags verif): calls every wrapper that takes a handle once and reports the
+// results as "Name=value" strings, so that a Go test (which may not use cgo
+// itself) can compare them with the documented defaults for unknown handles
+// and with the library's own answers for live ones. C strings are converted
+// and freed here.
+
+/*
+#include <stdlib.h>
+*/
+import "C"
+
+import (
+	"fmt"
+	"unsafe"
+)
+
+func verifStr(p *C.char) string {
+	if p == nil {
+		return "<nil>"
+	}
+	s := C.GoString(p)
+	C.free(unsafe.Pointer(p))
+	return s
+}
+
+func verifNewFrameSet(s string) (FrameSetId, string) {
+	cs := C.CString(s)
+	defer C.free(unsafe.Pointer(cs))
+	id, e := FrameSet_New(cs)
+	return id, verifStr(e)
+}
+
+func verifNewFileSeq(s string, style int) (FileSeqId, string) {
+	cs := C.CString(s)
+	defer C.free(unsafe.Pointer(cs))
+	id, e := FileSequence_New_Pad(cs, C.int(style))
+	return id, verifStr(e)
+}
+
+// verifProbeFrameSet calls every read-only FrameSet wrapper; ids of objects the
+// wrappers created are returned so that the caller can release them.
+func verifProbeFrameSet(id FrameSetId, frame, index, pad int) (out []string, created []FrameSetId) {
+	add := func(k string, v interface{}) { out = append(out, fmt.Sprintf("%s=%v", k, v)) }
+	add("String", verifStr(FrameSet_String(id)))
+	add("Len", int(FrameSet_Len(id)))
+	add("Index", int(FrameSet_Index(id, frame)))
+	fr, e := FrameSet_Frame(id, index)
+	add("Frame", int(fr))
+	add("FrameErr", verifStr(e) != "<nil>")
+	buf := make([]C.int, 4096)
+	n := int(FrameSet_Frames(id, &buf[0]))
+	fs := make([]int, n)
+	for i := 0; i < n; i++ {
+		fs[i] = int(buf[i])
+	}
+	add("Frames", fs)
+	add("HasFrame", FrameSet_HasFrame(id, frame))
+	add("Start", int(FrameSet_Start(id)))
+	add("End", int(FrameSet_End(id)))
+	add("FrameRange", verifStr(FrameSet_FrameRange(id)))
+	add("FrameRangePadded", verifStr(FrameSet_FrameRangePadded(id, pad)))
+	add("InvertedFrameRange", verifStr(FrameSet_InvertedFrameRange(id, pad)))
+	for _, c := range []struct {
+		name string
+		id   FrameSetId
+	}{{"Copy", FrameSet_Copy(id)}, {"Invert", FrameSet_Invert(id)}, {"Normalize", FrameSet_Normalize(id)}} {
+		add(c.name+"IsZero", c.id == 0)
+		if c.id != 0 {
+			add(c.name+"Range", verifStr(FrameSet_FrameRange(c.id)))
+			created = append(created, c.id)
+		}
+	}
+	return out, created
+}
+
+// verifProbeFileSeq calls every read-only FileSequence wrapper.
+func verifProbeFileSeq(id FileSeqId, frame, index int, fill, tpl string) (out []string, createdQ []FileSeqId, createdS []FrameSetId) {
+	add := func(k string, v interface{}) { out = append(out, fmt.Sprintf("%s=%v", k, v)) }
+	cfill, ctpl := C.CString(fill), C.CString(tpl)
+	defer C.free(unsafe.Pointer(cfill))
+	defer C.free(unsafe.Pointer(ctpl))
+	f, e := FileSequence_Format(id, ctpl)
+	add("Format", verifStr(f))
+	add("FormatErr", verifStr(e) != "<nil>")
+	add("Dirname", verifStr(FileSequence_Dirname(id)))
+	add("Basename", verifStr(FileSequence_Basename(id)))
+	add("Ext", verifStr(FileSequence_Ext(id)))
+	add("Start", int(FileSequence_Start(id)))
+	add("End", int(FileSequence_End(id)))
+	add("ZFill", int(FileSequence_ZFill(id)))
+	add("Padding", verifStr(FileSequence_Padding(id)))
+	add("PaddingStyle", int(FileSequence_PaddingStyle(id)))
+	add("FrameRange", verifStr(FileSequence_FrameRange(id)))
+	add("FrameRangePadded", verifStr(FileSequence_FrameRangePadded(id)))
+	add("InvertedFrameRange", verifStr(FileSequence_InvertedFrameRange(id)))
+	add("InvertedFrameRangePadded", verifStr(FileSequence_InvertedFrameRangePadded(id)))
+	add("FrameInt", verifStr(FileSequence_Frame_Int(id, frame)))
+	add("FrameFill", verifStr(FileSequence_Frame_Fill(id, cfill)))
+	add("Index", verifStr(FileSequence_Index(id, index)))
+	add("Len", int(FileSequence_Len(id)))
+	add("String", verifStr(FileSequence_String(id)))
+	fsid := FileSequence_FrameSet(id)
+	add("FrameSetIsZero", fsid == 0)
+	if fsid != 0 {
+		add("FrameSetRange", verifStr(FrameSet_FrameRange(fsid)))
+		createdS = append(createdS, fsid)
+	}
+	cp := FileSequence_Copy(id)
+	add("CopyIsZero", cp == 0)
+	if cp != 0 {
+		add("CopyString", verifStr(FileSequence_String(cp)))
+		createdQ = append(createdQ, cp)
+	}
+	return out, createdQ, createdS
+}
+
+// verifMutateFileSeq calls every setter wrapper and reports what they returned.
+func verifMutateFileSeq(id FileSeqId, fsid FrameSetId, dir, base, ext, pad, rng string, style int) (out []string) {
+	add := func(k string, v interface{}) { out = append(out, fmt.Sprintf("%s=%v", k, v)) }
+	cs := func(s string) *C.char { return C.CString(s) }
+	cd, cb, ce, cp, cr := cs(dir), cs(base), cs(ext), cs(pad), cs(rng)
+	defer func() {
+		for _, p := range []*C.char{cd, cb, ce, cp, cr} {
+			C.free(unsafe.Pointer(p))
+		}
+	}()
+	FileSequence_SetDirname(id, cd)
+	FileSequence_SetBasename(id, cb)
+	FileSequence_SetExt(id, ce)
+	FileSequence_SetPadding(id, cp)
+	FileSequence_SetPaddingStyle(id, C.int(style))
+	add("SetFrameRangeErr", verifStr(FileSequence_SetFrameRange(id, cr)) != "<nil>")
+	add("SetFrameSet", FileSequence_SetFrameSet(id, fsid))
+	add("String", verifStr(FileSequence_String(id)))
+	return out
+}
